@@ -14,7 +14,7 @@ From V.proofs Require RelGrammarAccP.
 From Coq Require Import ZifyBool.
 Set Default Timeout 60.
 
-(* ================================================================== B. the builder *)
+(* ================================================================== B. the builder (in-place splices, /repo 5517d72) *)
 (* what Relation::new + set_archqual + set_architectures + add_profile* leave behind *)
 Definition prof_elems (gs : list (list profile)) : list rtree := flat_map (fun g => [t_space; profiles_node g]) gs.
 Definition conv_children (name : str) (ver : option (vcn * str)) (q : option str) (archs : option (list str))
@@ -49,18 +49,6 @@ Qed.
 Lemma insert_at_end {A} (new l : list A) : insert_at (length l) new l = l ++ new.
 Proof. unfold insert_at. rewrite firstn_all, skipn_all, app_nil_r. reflexivity. Qed.
 
-Lemma reroot_root st r T g : rootreg st r T ->
-  exists st', runs (reroot r true g) st tt st' /\ rootreg st' r g /\ length (regs st') = length (set_reg_l r None (regs st)).
-Proof.
-  destruct st as [ts rs]. intros (tid & ri & Hr & Ht). cbn [regs trees] in *.
-  exists (mk_state (ts ++ [mk_slot true 0 g]) (set_reg_l r (Some (mk_hnd (length ts) [])) rs)).
-  split; [|split].
-  - unfold reroot. rbind; [apply runs_get_reg; exact Hr|]. cbn [parent_h h_path split_last].
-    unfold reroot_self. rbind; [apply runs_alloc|]. apply runs_set_reg.
-  - exists (length ts), 0. cbn [regs trees]. split; [apply nth_error_set_reg_l_eq|apply nth_error_app_at].
-  - cbn [regs]. clear. revert rs; induction r as [|r IH]; intros [|x t]; cbn; auto.
-Qed.
-
 Lemma set_archqual_root st r n rest q : rootreg st r (Node RELATION (Tok IDENT n :: rest)) ->
   forallb (fun x => negb (node_is ARCHQUAL x)) rest = true ->
   exists st', runs (relation_set_archqual r q) st tt st' /\
@@ -68,9 +56,9 @@ Lemma set_archqual_root st r n rest q : rootreg st r (Node RELATION (Tok IDENT n
               length (regs st') = length (regs st).
 Proof.
   destruct st as [ts rs]. intros (tid & ri & Hr & Ht) Hno. cbn [regs trees] in *.
-  destruct (splice_new_insert_spec ts rs r tid ri (Node RELATION (Tok IDENT n :: rest)) [] RELATION
+  destruct (splice_new_insert_spec_o ts rs r tid ri (Node RELATION (Tok IDENT n :: rest)) [] RELATION
               (Tok IDENT n :: rest) 1 (archqual_node q) Hr Ht eq_refl ltac:(cbn; lia))
-    as (ts' & F & R & T' & HF).
+    as (ts' & F & R & T' & HF & _).
   exists (mk_state ts' (map (option_map F) rs)). split; [|split].
   - unfold relation_set_archqual. rbind; [apply runs_get_reg; exact Hr|].
     rbind; [eapply runs_children_of; [exact Ht|reflexivity]|]. cbn [children s_tree].
@@ -84,36 +72,49 @@ Proof.
   - cbn [regs]. apply map_length.
 Qed.
 
+(* splice_children(idx..idx, fresh tokens/nodes) at the end of the children of a root (in place, /repo 5517d72) *)
+Lemma insert_fresh_root st r cs new : rootreg st r (Node RELATION cs) ->
+  exists st', runs (m_insert_fresh r (length cs) new) st tt st' /\
+              rootreg st' r (Node RELATION (cs ++ new)) /\ length (regs st') = length (regs st).
+Proof.
+  destruct st as [ts rs]. intros (tid & ri & Hr & Ht). cbn [regs trees] in *.
+  destruct (m_insert_fresh_spec new ts rs r tid ri (Node RELATION cs) [] RELATION cs (length cs) Hr Ht eq_refl (le_n _))
+    as (ts' & F & R & _ & T' & _ & HF & _).
+  exists (mk_state ts' (map (option_map F) rs)). split; [exact R|]. split; [|cbn [regs]; apply map_length].
+  exists tid, ri. cbn [regs trees]. split.
+  - rewrite nth_error_map, Hr. cbn [option_map]. rewrite HF; [reflexivity| |apply above_root].
+    cbn [h_tid]. eapply nth_error_Some_lt; exact Ht.
+  - cbn [upd_path] in T'. rewrite insert_at_end in T'. exact T'.
+Qed.
+
 Lemma set_architectures_root st r cs a : rootreg st r (Node RELATION cs) ->
   forallb (fun x => negb (node_is ARCHITECTURES x)) cs = true ->
   forallb (fun x => negb (node_is PROFILES x)) cs = true ->
-  exists st', runs (relation_set_architectures r a) st tt st' /\
-              rootreg st' r (Node RELATION (cs ++ [t_space; architectures_node a])) /\
-              length (regs st') = length (set_reg_l r None (regs st)).
+  exists st', runs (relation_set_architectures_v fixed r a) st tt st' /\
+              rootreg st' r (Node RELATION (cs ++ [t_space; architectures_node a])).
 Proof.
   intros Hroot Hna Hnp.
-  destruct (reroot_root st r _ (Node RELATION (cs ++ [t_space; architectures_node a])) Hroot) as (st' & R & Hr' & Hl).
-  exists st'. split; [|split; assumption].
+  destruct (insert_fresh_root st r cs [t_space; architectures_node a] Hroot) as (st' & R & Hr' & _).
+  exists st'. split; [|exact Hr'].
   destruct st as [ts rs]. destruct Hroot as (tid & ri & Hr & Ht). cbn [regs trees] in *.
-  unfold relation_set_architectures. rbind; [apply runs_get_reg; exact Hr|].
+  unfold relation_set_architectures_v. rbind; [apply runs_get_reg; exact Hr|].
   rbind; [eapply runs_node_of; [exact Ht|reflexivity]|]. cbn [children s_tree].
   rewrite (find_index_none _ _ Hna). unfold architectures_pos. rewrite (find_index_none _ _ Hnp).
-  rewrite insert_at_end. exact R.
+  change (fx_in_place fixed) with true. cbv iota. exact R.
 Qed.
 
 Lemma add_profile_root st r cs g : rootreg st r (Node RELATION cs) ->
   (match last_index (node_is PROFILES) cs with Some i => S i | None => length cs end) = length cs ->
-  exists st', runs (relation_add_profile r g) st tt st' /\
-              rootreg st' r (Node RELATION (cs ++ [t_space; profiles_node g])) /\
-              length (regs st') = length (set_reg_l r None (regs st)).
+  exists st', runs (relation_add_profile_v fixed r g) st tt st' /\
+              rootreg st' r (Node RELATION (cs ++ [t_space; profiles_node g])).
 Proof.
   intros Hroot Hidx.
-  destruct (reroot_root st r _ (Node RELATION (cs ++ [t_space; profiles_node g])) Hroot) as (st' & R & Hr' & Hl).
-  exists st'. split; [|split; assumption].
+  destruct (insert_fresh_root st r cs [t_space; profiles_node g] Hroot) as (st' & R & Hr' & _).
+  exists st'. split; [|exact Hr'].
   destruct st as [ts rs]. destruct Hroot as (tid & ri & Hr & Ht). cbn [regs trees] in *.
-  unfold relation_add_profile. rbind; [apply runs_get_reg; exact Hr|].
+  unfold relation_add_profile_v. rbind; [apply runs_get_reg; exact Hr|].
   rbind; [eapply runs_node_of; [exact Ht|reflexivity]|]. cbn [children s_tree].
-  rewrite Hidx, insert_at_end. exact R.
+  rewrite Hidx. change (fx_in_place fixed) with true. cbv iota. exact R.
 Qed.
 
 (* the position add_profile chooses is always the end: the groups added so far are the last children *)
@@ -133,15 +134,15 @@ Proof. unfold prof_elems. rewrite flat_map_app. cbn [flat_map]. rewrite app_nil_
 
 Lemma add_profiles_root gs : forall st r base done, rootreg st r (Node RELATION (base ++ prof_elems done)) ->
   forallb (fun x => negb (node_is PROFILES x)) base = true ->
-  exists st', runs (add_profiles r gs) st tt st' /\ rootreg st' r (Node RELATION (base ++ prof_elems (done ++ gs))).
+  exists st', runs (add_profiles_v fixed r gs) st tt st' /\ rootreg st' r (Node RELATION (base ++ prof_elems (done ++ gs))).
 Proof.
   induction gs as [|g gs IH]; intros st r base done Hroot Hb.
   - exists st. rewrite app_nil_r. split; [apply runs_ret|exact Hroot].
-  - destruct (add_profile_root st r _ g Hroot (profile_pos_end base done Hb)) as (st1 & R1 & H1 & _).
+  - destruct (add_profile_root st r _ g Hroot (profile_pos_end base done Hb)) as (st1 & R1 & H1).
     rewrite <- app_assoc, <- prof_elems_snoc in H1.
     destruct (IH st1 r base (done ++ [g]) H1 Hb) as (st2 & R2 & H2).
     exists st2. split; [|rewrite <- app_assoc in H2; exact H2].
-    cbn [add_profiles]. rbind; [exact R1|exact R2].
+    cbn [add_profiles_v]. rbind; [exact R1|exact R2].
 Qed.
 
 Lemma no_kind_base k name ver q : k = ARCHITECTURES \/ k = PROFILES ->
@@ -151,10 +152,10 @@ Lemma no_kind_base k name ver q : k = ARCHITECTURES \/ k = PROFILES ->
 Proof. intros [-> | ->]; destruct q; destruct ver as [[vc s]|]; reflexivity. Qed.
 
 Theorem builder_build_root ts rs dst name ver q archs gs :
-  exists st', runs (builder_build dst name ver q archs gs) (mk_state ts rs) tt st' /\
+  exists st', runs (builder_build_v fixed dst name ver q archs gs) (mk_state ts rs) tt st' /\
               rootreg st' dst (conv_node name ver q archs gs).
 Proof.
-  unfold builder_build.
+  unfold builder_build_v.
   set (st0 := mk_state (ts ++ [mk_slot true 0 (relation_new name ver)]) (set_reg_l dst (Some (mk_hnd (length ts) [])) rs)).
   assert (H0 : rootreg st0 dst (relation_new name ver)).
   { exists (length ts), 0. cbn [st0 regs trees]. split; [apply nth_error_set_reg_l_eq|apply nth_error_app_at]. }
@@ -171,10 +172,10 @@ Proof.
   set (base := Tok IDENT name :: (match q with Some q => [archqual_node q] | None => [] end) ++
                (match ver with Some (vc, s) => [t_space; version_node vc s] | None => [] end)) in *.
   (* architectures *)
-  assert (H2 : exists st2, runs (match archs with Some a => relation_set_architectures dst a | None => ret tt end) st1 tt st2 /\
+  assert (H2 : exists st2, runs (match archs with Some a => relation_set_architectures_v fixed dst a | None => ret tt end) st1 tt st2 /\
                rootreg st2 dst (Node RELATION (base ++ (match archs with Some a => [t_space; architectures_node a] | None => [] end)))).
   { destruct archs as [a|].
-    - destruct (set_architectures_root st1 dst base a H1) as (st2 & R & Hr & _);
+    - destruct (set_architectures_root st1 dst base a H1) as (st2 & R & Hr);
         [apply no_kind_base; left; reflexivity|apply no_kind_base; right; reflexivity|].
       exists st2. split; [exact R|exact Hr].
     - exists st1. rewrite app_nil_r. split; [apply runs_ret|exact H1]. }
